@@ -25,6 +25,10 @@ def _api():
     return toposort, sr
 
 
+# vertices that are falsy or None: "every directed graph" does not exclude them
+FALSY = {1: 0, 2: "", 3: None, 4: 0.5, 5: (), 6: "0", 7: -1}
+
+
 def presentations(n, edges, rng=None):
     """The same graph as dicts: insertion orders and vertex labels vary."""
     verts = list(range(1, n + 1))
@@ -34,7 +38,7 @@ def presentations(n, edges, rng=None):
         rng.shuffle(extra)
         orders.append(extra)
     for order in orders:
-        for label in (lambda v: v, lambda v: f"g{v}", lambda v: (v % 2, -v)):
+        for label in (lambda v: v, lambda v: f"g{v}", lambda v: (v % 2, -v), FALSY.get):
             graph = {label(u): set() for u in order}
             for u, v in sorted(edges, reverse=(order is not verts)):
                 graph[label(u)].add(label(v))
